@@ -21,7 +21,10 @@ RULE = ('E2 explicit-state exploration of the sans-io receive loop: a peer '
         '(the frames that may follow it: content header with class 60 / the '
         'frame\'s class / foreign classes, body, methods, heartbeat, on the '
         'same and on another channel, well-formed, malformed and cut; 44 '
-        'for the representative frames, 7 for all others), and the envelope clause on every input of the E4 spaces '
+        'for the representative frames, 7 for all others), the same bytes as bytearray / memoryview and as slices of '
+        'larger buffers for every pair of K_seq frames (acceptance is not '
+        'required; a returned frame must be the one the view starts with), '
+        'and the envelope clause on every input of the E4 spaces '
         'that decodes successfully. A state is (sequence, c, r) / (frame, '
         'trailer) / input; non-trivial = a successful decode with trailing '
         'bytes or an envelope check performed.')
@@ -100,6 +103,7 @@ def kseq():
 def tasks(tier, seed):
     out = [('seq', i) for i in range(len(kseq()))]
     out += [('trail',) + tuple(t) for t in frames.frame_tasks(tier)]
+    out += [('views', i) for i in range(len(kseq()))]
     out += [('env',) + tuple(t) for t in fuzzspace.tasks(tier, seed)]
     return out
 
@@ -208,6 +212,118 @@ def check_trailers(ctx, label, data, full=True):
                    'label': label})
 
 
+def _view_result_ok(ref, consumed, channel, obj):
+    """Lenient comparison for buffer-typed input: counts, channel, kind and
+    class must be those of the reference; byte contents may come back in any
+    bytes-like type."""
+    bad = []
+    if consumed != ref['consumed']:
+        bad.append('consumed {} != {}'.format(consumed, ref['consumed']))
+    if channel != ref['channel']:
+        bad.append('channel {} != {}'.format(channel, ref['channel']))
+    kind = lib.kind_of(obj)
+    if kind != ref['kind']:
+        bad.append('kind {} != {}'.format(kind, ref['kind']))
+    elif kind == 'body':
+        try:
+            if bytes(obj.value) != ref['value']:
+                bad.append('body {} != {}'.format(
+                    short(bytes(obj.value), 60), short(ref['value'], 60)))
+        except Exception as exc:  # noqa
+            bad.append('body value unreadable: {!r}'.format(exc))
+    elif kind == 'method':
+        if getattr(obj, 'name', None) != ref['method'].name:
+            bad.append('class {} != {}'.format(getattr(obj, 'name', None),
+                                               ref['method'].name))
+        else:
+            for (name, wt, _d), want in zip(ref['method'].args, ref['args']):
+                got = getattr(obj, name, 'MISSING')
+                if wt in ('octet', 'short', 'long', 'longlong', 'bit',
+                          'shortstr') and got != want:
+                    bad.append('{}: {} != {}'.format(name, short(got, 40),
+                                                     short(want, 40)))
+    elif kind == 'header':
+        if obj.body_size != ref['body_size']:
+            bad.append('body_size {} != {}'.format(obj.body_size,
+                                                   ref['body_size']))
+    return bad
+
+
+def check_views(ctx, label, buf, frames_):
+    """The same bytes handed over in other buffer types and as SLICES of
+    larger buffers (a client that keeps one receive buffer and advances a
+    memoryview over it).  The decoder need not accept such input at all -
+    any exception is fine - but when it returns a frame, that frame is the
+    one the bytes of the view start with: never the content of the
+    underlying buffer outside the view, never a frame the view holds only
+    part of."""
+    p = lib.pamqp()
+    bounds = [0]
+    for d in frames_:
+        bounds.append(bounds[-1] + len(d))
+    pad = b'\x03\x00\x09\x00\x00\x00\x03pad\xce'
+    padded = pad + buf + pad
+    big = bytearray(padded)
+    views = []
+    for k in range(len(frames_)):
+        c, nxt = bounds[k], bounds[k + 1]
+        for r in sorted({nxt, len(buf), nxt - 1, c + 7, c + 3,
+                         min(len(buf), nxt + 5)}):
+            if r < c:
+                continue
+            off = len(pad)
+            views += [
+                ('memoryview(bytes)[%d:%d]' % (c, r), memoryview(buf)[c:r]),
+                ('memoryview(padded bytes)[%d:%d]' % (off + c, off + r),
+                 memoryview(padded)[off + c:off + r]),
+                ('memoryview(bytearray)[%d:%d]' % (off + c, off + r),
+                 memoryview(big)[off + c:off + r]),
+                ('bytearray', bytearray(buf[c:r])),
+                ('memoryview(bytes) whole', memoryview(buf[c:r])),
+            ]
+    for vlabel, view in views:
+        content = bytes(view)
+        ctx.case((label, vlabel, content[:24]), True, sample=lambda: {
+            'frames': label, 'view': vlabel, 'view_bytes': len(content)})
+        case = {'kind': 'views', 'label': label, 'hex': buf.hex(),
+                'lens': [len(d) for d in frames_]}
+        try:
+            consumed, channel, obj = p.frame.unmarshal(view)
+            ctx.calls()
+        except BaseException as exc:  # noqa
+            if isinstance(exc, (runner.Hang, KeyboardInterrupt, SystemExit)):
+                raise
+            ctx.outcome('view-refused')
+            continue
+        ctx.valid()
+        try:
+            ref = refcodec.dec_frame(content)
+        except refcodec.RefError:
+            ref = None
+        fp = 'view|{}|{}'.format(label, vlabel)
+        if ref is None:
+            ctx.outcome('view-mismatch')
+            ctx.violation(fp, '{}: unmarshal({}) returned ({}, {}, {}) but '
+                          'the {} bytes of the view do not hold a complete '
+                          'frame ({})'.format(
+                              label, vlabel, consumed, channel,
+                              lib.kind_of(obj), len(content),
+                              content.hex()[:80]), case,
+                          'an exception', 'a frame')
+            continue
+        bad = _view_result_ok(ref, consumed, channel, obj)
+        if bad:
+            ctx.outcome('view-mismatch')
+            ctx.violation(fp, '{}: unmarshal({}) = ({}, {}, {}): {} (the '
+                          'view holds {})'.format(
+                              label, vlabel, consumed, channel,
+                              lib.kind_of(obj), '; '.join(bad)[:300],
+                              content.hex()[:80]), case,
+                          'the frame the view starts with', bad[:4])
+        else:
+            ctx.outcome('ok')
+
+
 def check_envelope(ctx, label, data):
     """Whenever decoding succeeds the result is the one written in the first
     7 bytes."""
@@ -267,6 +383,13 @@ def run(task, ctx):
         for length in range(1, maxlen + 1):
             for rest in itertools.product(range(n), repeat=length - 1):
                 explore_sequence(ctx, (first,) + rest)
+    elif kind == 'views':
+        ks = kseq()
+        first = ks[task[1]]
+        check_views(ctx, first[0], first[1], [first[1]])
+        for second in ks:
+            check_views(ctx, first[0] + '+' + second[0],
+                        first[1] + second[1], [first[1], second[1]])
     elif kind == 'trail':
         for label, data, _f, _t in frames.frames(task[1:], ctx.tier,
                                                  ctx.seed):
@@ -295,5 +418,12 @@ def replay(case, ctx):
         explore_sequence(ctx, tuple(case['seq']))
     elif kind == 'trail':
         check_trailers(ctx, case.get('label', ''), bytes.fromhex(case['hex']))
+    elif kind == 'views':
+        buf = bytes.fromhex(case['hex'])
+        parts, pos = [], 0
+        for n in case['lens']:
+            parts.append(buf[pos:pos + n])
+            pos += n
+        check_views(ctx, case.get('label', ''), buf, parts)
     else:
         check_envelope(ctx, case.get('label', ''), bytes.fromhex(case['hex']))
